@@ -386,13 +386,16 @@ pub fn fb_match_impl(pol: &PolKind, blk: &[u8], off: usize, key: &[u8]) -> Strin
 }
 /// the table builder's call pattern: keys of block i are added, then start_block(next offset)
 pub fn gen_fb_events(rng: &mut Rng, exact_multiples: bool) -> (Vec<FbEv>, Vec<(usize, Vec<Vec<u8>>)>) {
-    let nblocks = rng.below(7);
+    // one event list in twelve is BIG: 20..60 blocks (more than 16 filters, offsets beyond 2^16, exact
+    // multiples of 2^15), up to 150 keys in a block, some keys longer than 255 bytes
+    let big = rng.chance(1, 12);
+    let nblocks = if big { rng.range(20, 60) } else { rng.below(7) };
     let mut off = 0usize;
     let mut evs = vec![];
     let mut blocks = vec![];
-    for _ in 0..nblocks {
-        let nk = if rng.chance(1, 6) { 1 } else { rng.range(1, 6) };
-        let keys: Vec<Vec<u8>> = (0..nk).map(|_| gen_key(rng, None, 4)).collect();
+    for bi in 0..nblocks {
+        let nk = if big && rng.chance(1, 8) { rng.range(65, 150) } else if rng.chance(1, 6) { 1 } else { rng.range(1, 6) };
+        let keys: Vec<Vec<u8>> = (0..nk).map(|j| if big && j == 0 && bi % 7 == 0 { let l = rng.range(256, 300); rng.bytes(l, &[b'L', 0xff, 0x00]) } else { gen_key(rng, None, 4) }).collect();
         for k in keys.iter() {
             evs.push(FbEv::Key(k.clone()));
         }
@@ -403,6 +406,8 @@ pub fn gen_fb_events(rng: &mut Rng, exact_multiples: bool) -> (Vec<FbEv>, Vec<(u
             2 => rng.range(1900, 2200),
             3 => rng.range(4000, 9000),
             4 if exact_multiples => 2048 * rng.range(1, 3) - (off % 2048),
+            // land exactly on the next multiple of 2^15
+            5 if big && exact_multiples => 32768 - (off % 32768),
             _ => rng.range(100, 3000),
         };
         off += size;
